@@ -188,6 +188,17 @@ Theorem C15_records_partial :
 Proof. intros value St err P F cancel_req IO f. exact (exec_actions_returns value St err P F cancel_req IO f). Qed.
 Print Assumptions C15_records_partial.
 
+(* The whole call: ExecuteContext with a context cancelled at t returns (BEGIN, record loop, END all
+   within the budget; fuel is only the evaluator's recursion bound), provided the record loop is polled *)
+Theorem C15_execute_context_returns :
+  forall (value St err : Type) (P : prims value St err) (F : list cfunc) (cancel_req : St -> bool)
+         (IO : ioprims value St err) fuel cp m0 t x fin cs',
+  first_rule_dispatches (c_actions cp) \/ (c_actions cp = [] /\ c_end cp = []) ->
+  0 <= t -> t + checkContextOps - 1 < Z.of_nat fuel ->
+  execute_all P F cancel_req IO fuel cp m0 (cs_execute_context true (Some t)) = (x, fin, cs') -> x <> RFuel.
+Proof. exact execute_all_returns. Qed.
+Print Assumptions C15_execute_context_returns.
+
 Example C15_guard_satisfiable :
   first_rule_dispatches [([[INum 0]], None)] /\ first_rule_dispatches [([], Some [INop])] /\
   first_rule_dispatches [([[IGlobal 0]; [IGlobal 1]], Some [])] /\
@@ -206,6 +217,7 @@ Print Assumptions C15_poll_is_first_in_the_only_dispatch_loop.
 
 Theorem C15_every_loop_classified : forallb (fun l => is_some (classify l)) loops = true.
 Proof. exact loops_classified. Qed.
+Print Assumptions C15_every_loop_classified.
 
 Theorem C15_loops_not_bounded_by_data :
   map (fun l => (fst (fst l), snd (fst l)))
@@ -216,6 +228,7 @@ Theorem C15_loops_not_bounded_by_data :
       ("interp.nextLine", "for");
       ("interp.pushNulls", "for p.sp+num-1 >= len(p.stack)") ]%string.
 Proof. exact loops_not_data_bounded. Qed.
+Print Assumptions C15_loops_not_bounded_by_data.
 
 Theorem C15_source_as_modelled :
   (check_context_body = ["p.ctxOps++"; "if p.ctxOps < checkContextOps { return nil }"; "p.ctxOps = 0";
@@ -235,6 +248,15 @@ Proof.
   split; [exact check_context_source|]. split; [exact execute_context_source|].
   split; [exact counter_written_only_here|]. split; [exact polled_only_here|exact child_processes_under_the_context].
 Qed.
+Print Assumptions C15_source_as_modelled.
+
+(* where p.ctx.Err() is produced: the poll, and system() when waiting for the child failed while the
+   context is done (the only place outside the poll that turns cancellation into an error) *)
+Theorem C15_context_error_origins :
+  ctx_err_sites = [("interp.checkContextNow", ""); ("interp.callBuiltin", "err != nil");
+                   ("interp.callBuiltin", "err != nil && p.checkCtx && p.ctx.Err() != nil")]%string.
+Proof. exact context_error_origins. Qed.
+Print Assumptions C15_context_error_origins.
 
 Theorem C15_execute_called_only_from :
   execute_sites = [("interp.executeAll", "p.program.Compiled.Begin"); ("interp.executeAll", "p.program.Compiled.End");
@@ -242,6 +264,7 @@ Theorem C15_execute_called_only_from :
                    ("interp.execActions", "action.Pattern[1]"); ("interp.execActions", "action.Body");
                    ("interp.execute", "loopCode"); ("interp.execute", "f.Body")]%string.
 Proof. exact execute_called_only_here. Qed.
+Print Assumptions C15_execute_called_only_from.
 
 (* ======================= 6. the decoder used by the correspondence ======================= *)
 
